@@ -469,8 +469,10 @@ class Context:
             err.set("message", to_string(message) if message is not UNDEFINED else "")
             err.set("name", error_name)
             err.set("stack", "")  # Stack trace placeholder
-            err.set("lineNumber", None)  # Will be set when error is thrown
-            err.set("columnNumber", None)  # Will be set when error is thrown
+            # Set when the error is thrown; until then undefined (never the
+            # host's None, which is not a JavaScript value)
+            err.set("lineNumber", UNDEFINED)
+            err.set("columnNumber", UNDEFINED)
             return err
 
         constructor = JSCallableObject(error_constructor)
